@@ -215,6 +215,14 @@ def value_checks_parallel(repo, fr, classes, todo):
     return dict(_worker(x) for x in todo)
 
 
+def _judge_mutant(run, mrepo, name, ctx):
+    ci, encs = ctx['classes'][name]
+    mci = mrepo.cls(name)
+    check_structure(run, mrepo, ctx['eff'], mci)
+    if not run.findings:
+        check_value(run, mrepo, ctx['fr'], mci, encs)
+
+
 def main(repo_path, tier, seed, replay=None):
     run = Run('C09', tier, level='other', seed=seed)
     repo = Repo(repo_path)
@@ -252,6 +260,11 @@ def main(repo_path, tier, seed, replay=None):
             run.violation('C09-W', f.file, f.func, f.construct, f.message, f.detail)
     run.instance('C09-W', 'widths of results', obligations=len(names), ok=True, sample={'classes': len(names)})
     controls(run, repo_path, fr, classes)
+    if tier == 'thorough':
+        from ..selftest import run_selftest
+        targets = [(name, ci.module.relpath, ci.module.source, name + '.execute') for name, (ci, encs) in sorted(classes.items())
+                   if name not in oprefs.TOO_LARGE]
+        run_selftest(run, repo_path, 'C09', targets, _judge_mutant, {'fr': fr, 'eff': eff, 'classes': classes}, per_function=6, floor=70, seconds=12)
     run.exhaustive = True
     run.undecided = ['USAD8 / USADA8 result values (%s)' % oprefs.TOO_LARGE['Usad8'],
                      'that Python `*` and `/` are the mathematical product and quotient (uninterpreted, identical on both sides)']
